@@ -594,6 +594,40 @@ fn m17_two_parking_writers_one_credit_vs_close() {
     report("m17_two_parking_writers_one_credit_vs_close");
 }
 
+/// 18. a writer parked on credit ∥ a local shutdown of the same stream from another thread (the `&self`
+/// API): closing the write side must wake the writer, which then fails
+#[test]
+fn m18_parked_writer_vs_local_shutdown() {
+    model(|| {
+        let p = parts(0);
+        let Parts {
+            stream,
+            data,
+            mut tx_msg_rx,
+            ..
+        } = p;
+        let stream = Arc::new(stream);
+        let s2 = stream.clone();
+        let w = thread::spawn(move || writer_obtains(&s2, 1));
+        stream.do_shutdown();
+        let r = w.join().expect("writer");
+        assert_eq!(r, [false], "a writer waiting for credit must fail once the stream is shut down");
+        let mut finishes = 0;
+        while let Ok(m) = tx_msg_rx.try_recv() {
+            if let Message::Binary(b) = m {
+                if crate::frame::Frame::try_from(b).expect("frame").opcode() == crate::frame::OpCode::Finish {
+                    finishes += 1;
+                }
+            }
+        }
+        assert_eq!(finishes, 1);
+        outcome(format!("{r:?}"));
+        drop(data);
+        drop(stream);
+    });
+    report("m18_parked_writer_vs_local_shutdown");
+}
+
 // ---- flow-id allocation under concurrent opens (supplements the scheduler-level checks)
 
 #[derive(Debug)]
